@@ -95,9 +95,18 @@ impl<P: Payload + std::fmt::Display> Hook<P> for PrintReturnsHook {
                 continue;
             }
             let id = m.nodes[h].id;
-            let n = m.subtree(h).len();
-            // every line: <= 4 columns per level + the longest payload line (< 64 bytes); <= 4 lines per node
-            let bound = n * 4 * (4 * n + 80) + 1024;
+            let sub = m.subtree(h);
+            let n = sub.len();
+            // every line of a payload: <= 4 bytes of guides per level (levels < n) + the line itself; the texts are
+            // measured (longest of the four renderings of each payload), then everything doubled
+            let mut bound = 1024usize;
+            for x in &sub {
+                let pl = st.arena[m.nodes[*x].id].get();
+                let texts = [format!("{}", pl), format!("{:#}", pl), format!("{:?}", pl), format!("{:#?}", pl)];
+                let len = texts.iter().map(|t| t.len()).max().unwrap_or(0);
+                let lines = texts.iter().map(|t| t.matches('\n').count() + 1).max().unwrap_or(1);
+                bound += 2 * (len + lines * (4 * n + 8));
+            }
             for mode in 0..2 {
                 let mut w = mon::LimitedWriter { left: bound };
                 let r = guarded(|| if mode == 0 { write!(w, "{}", id.debug_pretty_print(&st.arena)) } else { write!(w, "{:#?}", id.debug_pretty_print(&st.arena)) });
@@ -255,6 +264,13 @@ pub fn run_c13(ctx: &Ctx, index: u64, cov: &mut Cov) -> Option<Violation> {
     cfg.writes = true;
     cfg.max_live = 12;
     cfg.max_slots = 20;
+    // every 7th history on arenas large enough for "more than N slots / more than half of it" conditions
+    let roomy = index % 7 == 3;
+    if roomy {
+        cfg.max_live = 70;
+        cfg.max_slots = 110;
+        cov.bump("histories_on_arenas_up_to_110_slots");
+    }
     let mut gen = Gen::new(cfg.clone(), persona);
     cov.histories += 1;
     {
@@ -312,7 +328,7 @@ pub fn run_c13(ctx: &Ctx, index: u64, cov: &mut Cov) -> Option<Violation> {
     }
     let mut guaranteed_b = capn;
     let mut guaranteed_a = 0usize;
-    let len = rng.range(10, 70);
+    let len = if roomy { rng.range(80, 240) } else { rng.range(10, 70) };
     let fork_at = rng.below(len);
     let mut ops: Vec<Op> = Vec::new();
     let mut fork: Option<(State<Plain>, Arena<Plain>, usize)> = None;
@@ -369,6 +385,9 @@ pub fn run_c13(ctx: &Ctx, index: u64, cov: &mut Cov) -> Option<Violation> {
             if x != y {
                 return v(ctx, "replay-id-differs", format!("same history, different ids: {:?} vs {:?}", x, y), &workload, step, &ops);
             }
+        }
+        if step % 5 == 0 && (format!("{:?}", b) != format!("{:?}", a.arena) || format!("{:?}", a.arena) != format!("{:?}", a.arena)) {
+            return v(ctx, "replay-debug-text-differs", format!("after the same {} calls the Debug text of two equal arenas differs (or differs between two calls on the same arena)", step + 1), &workload, step, &ops);
         }
         if b != a.arena {
             return v(ctx, "replay-arena-differs", format!("after the same {} calls two arenas (new() and with_capacity({})) are not equal", step + 1, capn), &workload, step, &ops);
@@ -699,6 +718,26 @@ pub struct BatteryHook {
     pub observations: u64,
 }
 
+/// keeps what was written until `left` bytes are used up; the write that does not fit is refused as a whole
+pub struct RecordingSink {
+    pub buf: String,
+    pub left: usize,
+    pub writes: u64,
+}
+
+impl std::fmt::Write for RecordingSink {
+    fn write_str(&mut self, s: &str) -> std::fmt::Result {
+        self.writes += 1;
+        if s.len() > self.left {
+            self.left = 0;
+            return Err(std::fmt::Error);
+        }
+        self.left -= s.len();
+        self.buf.push_str(s);
+        Ok(())
+    }
+}
+
 impl BatteryHook {
     #[allow(deprecated)]
     fn observe<P: Payload + std::fmt::Display>(&mut self, st: &State<P>, info: &StepInfo<P>) -> Result<(), String> {
@@ -764,6 +803,18 @@ impl BatteryHook {
                 d.s(&format!("{:#}", id.debug_pretty_print(a)));
                 d.s(&format!("{:?}", id.debug_pretty_print(a)));
                 d.s(&format!("{:#?}", id.debug_pretty_print(a)));
+                // a sink that runs full part-way: what reached it before the error is a result too
+                for limit in [0usize, 1, 9, 33, 120] {
+                    use std::fmt::Write as _;
+                    let mut w = RecordingSink { buf: String::new(), left: limit, writes: 0 };
+                    let r = write!(w, "{}", id.debug_pretty_print(a));
+                    d.u(r.is_err() as u64);
+                    d.s(&w.buf);
+                    let mut w2 = RecordingSink { buf: String::new(), left: limit, writes: 0 };
+                    let r2 = write!(w2, "{:#?}", id.debug_pretty_print(a));
+                    d.u(r2.is_err() as u64);
+                    d.s(&w2.buf);
+                }
             }
             self.observations += 14;
         }
@@ -917,6 +968,7 @@ pub fn read_battery<P: Payload + std::fmt::Display>(a: &Arena<P>, yield_seed: u6
     };
     let bound = 2 * a.count() + 3;
     d.u(a.count() as u64);
+    d.s(&format!("{:?}", a));
     for (i, n) in a.iter().enumerate() {
         d.u(n.is_removed() as u64);
         d.s(&format!("{}", n));
